@@ -289,6 +289,21 @@ func (s *SwapStateMachine) exponentialBackoffAndJitter() {
 // Recover tries to continue from the current state, by doing the associated Action
 func (s *SwapStateMachine) Recover() (bool, error) {
 	log.Infof("[Swap:%s]: Recovering from state %s", s.SwapId.String(), s.Current)
+	nextEvent, done, err := s.recoverCurrentState()
+	if err != nil || done || nextEvent == NoOp {
+		return done, err
+	}
+	return s.SendEvent(nextEvent, nil)
+}
+
+// recoverCurrentState re-runs the action of the persisted state. The swap is
+// already registered as active at this point, so peer messages, chain and
+// payment notifications for it can arrive while it is being recovered: the
+// action and the following write run under the swap lock like every other
+// transition. It returns the event to continue with.
+func (s *SwapStateMachine) recoverCurrentState() (EventType, bool, error) {
+	s.mutex.Lock()
+	defer s.mutex.Unlock()
 	if s.Current == Default {
 		// The process stopped after the swap was first persisted but before its
 		// first transition: nothing has been sent, paid or locked for it yet.
@@ -301,32 +316,29 @@ func (s *SwapStateMachine) Recover() (bool, error) {
 			s.Data.CancelMessage = "interrupted before the swap started"
 		}
 		if err := s.swapServices.swapStore.UpdateData(s); err != nil {
-			return false, err
+			return NoOp, false, err
 		}
-		return true, nil
+		return NoOp, true, nil
 	}
 	state, ok := s.States[s.Current]
 	if !ok {
-		return false, fmt.Errorf("unknown state: %s for swap %s", s.Current, s.SwapId.String())
+		return NoOp, false, fmt.Errorf("unknown state: %s for swap %s", s.Current, s.SwapId.String())
 	}
 
 	if !ok || state.Action == nil {
 		// configuration error
-		return false, ErrFsmConfig
+		return NoOp, false, ErrFsmConfig
 	}
 	if state.FailOnrecover {
-		return s.SendEvent(Event_ActionFailed, nil)
+		return Event_ActionFailed, false, nil
 	}
 
 	nextEvent := state.Action.Execute(s.swapServices, s.Data)
 	err := s.swapServices.swapStore.UpdateData(s)
 	if err != nil {
-		return false, err
+		return NoOp, false, err
 	}
-	if nextEvent == NoOp {
-		return false, nil
-	}
-	return s.SendEvent(nextEvent, nil)
+	return nextEvent, false, nil
 }
 
 // IsFinished returns true if the swap is already finished
